@@ -14,6 +14,7 @@
    sum only;  (1) model: the same against the model's exact head-stream contents. *)
 From Coq Require Import ZArith List Bool.
 From Verif Require Import Base.F64 Base.Str Base.Sx Model.SummaryWindow.
+From Verif Require Base.Conc Model.HotCold Model.SummaryConc.
 Import ListNotations.
 Open Scope Z_scope.
 
@@ -163,14 +164,14 @@ Definition check_case (cs : case) : Z :=
       end
   end.
 
-Definition check (s : sx) : Z :=
+Definition check_seq (s : sx) : Z :=
   match d_case s with Some c => check_case c | None => code_decode_error end.
 
 (* ---- explain: model outputs and specification windows per Write ---- *)
 Definition e_q (m : f64 * qval) : sx :=
   SL [eF (fst m); match snd m with QNaN => SL [] | QQuery w => SL [SZ (Z.of_nat (length w))] end].
 Definition e_w (m : wout) : sx := SL [SZ (w_count m); eF (w_sum m); SZ (Z.of_nat (length (w_window m))); eL e_q (w_quantiles m)].
-Definition explain (s : sx) : sx :=
+Definition explain_seq (s : sx) : sx :=
   match d_case s with
   | Some (o, t0, ops, _) =>
       match new_summary o t0 with
@@ -190,3 +191,130 @@ Definition explain (s : sx) : sx :=
       end
   | None => SL []
   end.
+
+(* ================================================================== *)
+(* stream sched: the REAL summary (instrumented: every Mutex operation and the start of asyncFlush's
+   goroutine is a schedule point) under explored schedules, against the step machine of
+   Model/SummaryConc.v run under the same schedule.
+   wire: (7 opts t0 rate progs sched trace calls flags)
+     the injected clock is t0 + rate * (number of scheduler steps so far);  progs = ((op...)...) with
+     op = (0 v) | (1);  sched = (tid...);  trace = ((tid label)...);  calls = ((tid idx ret inv res)...)
+     with ret = (0) | (1 (count sum ((q isnan value)...)));  flags: 1 deadlock, 2 step limit, 4 panic.
+   code 2: flags <> 0, a call is missing, or the history of calls is not explained by the snapshot
+           checker (Model/HotCold.v snapshot_check: the observation values are distinct powers of two, so the
+           float sum of a Write identifies the set M of observations it reports; count = |M|,
+           returned-before-invocation <= M <= invoked-before-response, nested for ordered Writes);
+   code 1: the machine, run under the same schedule, differs in the per-step (thread, operation) labels, in a
+           call's invocation/response time, in count / sum bits, or the returned quantile is not tolerated
+           for the machine's window. *)
+Module Sched.
+Import Conc HotCold SummaryConc.
+
+Definition d_uop (s : sx) : option uop :=
+  match s with
+  | SL [SZ 0; v] => option_map UObserve (dF v)
+  | SL [SZ 1] => Some UWrite
+  | _ => None
+  end.
+
+Inductive iret := IUnit | IOut (w : iw).
+Definition d_iret (s : sx) : option iret :=
+  match s with
+  | SL [SZ 0] => Some IUnit
+  | SL [SZ 1; w] => option_map IOut (dT3 dZ dF (dL (dT3 dF dB dF)) w)
+  | _ => None
+  end.
+Definition icall := (Z * Z * iret * Z * Z)%type.
+Definition d_icall (s : sx) : option icall :=
+  match s with
+  | SL [SZ t; SZ i; r; SZ a; SZ b] => option_map (fun r => (t, i, r, a, b)) (d_iret r)
+  | _ => None
+  end.
+
+Fixpoint trace_eqb (a b : list (Z * list Z)) : bool :=
+  match a, b with
+  | [], [] => true
+  | (t, l) :: a', (t', l') :: b' => Z.eqb t t' && str_eqb l l' && trace_eqb a' b'
+  | _, _ => false
+  end.
+
+(* the implementation's history as calls of the (classic) history checker: count, sum, no buckets *)
+Definition to_hist (progs : list (list uop)) (ih : list icall) : option (list (call hist_machine)) :=
+  mapM (fun ic : icall => let '(t, i, r, a, b) := ic in
+    match nth_error progs (Z.to_nat t) with
+    | Some p =>
+        match nth_error p (Z.to_nat i), r with
+        | Some (UObserve v), IUnit => Some (mkCall (M := hist_machine) t i (HObserve v) HUnit a b)
+        | Some UWrite, IOut (n, sm, _) => Some (mkCall (M := hist_machine) t i HWrite (HOut (mkHOut n sm [])) a b)
+        | _, _ => None
+        end
+    | None => None
+    end) ih.
+
+Definition ret_ok (objs : list (f64 * f64)) (m : sret) (i : iret) : bool :=
+  match m, i with
+  | RUnit, IUnit => true
+  | ROut w, IOut (n, sm, qs) =>
+      (n =? w_count w) && fbits_eq sm (w_sum w) &&
+      forallb2 (fun mq_e q => model_quantile_ok false (fst mq_e) (snd mq_e) q) (combine (w_quantiles w) (map snd objs)) qs &&
+      Nat.eqb (length (w_quantiles w)) (length qs)
+  | _, _ => false
+  end.
+
+Definition check_sched (o : opts) (t0 rate : Z) (progs : list (list uop)) (sched : list Z)
+  (tr : list (Z * list Z)) (calls : list icall) (flags : Z) : Z :=
+  match to_hist progs calls with
+  | None => code_spec_violation        (* a result of the wrong kind, or a call that is not in the program *)
+  | Some ih =>
+      let spec_ok := Z.eqb flags 0 && Nat.eqb (length calls) (length (concat progs)) &&
+                     snapshot_check (M := hist_machine) (fun x => x) (fun x => x) [] ih in
+      if negb spec_ok then code_spec_violation
+      else match new_summary o t0 with
+      | NSummary c objs _ =>
+          let clk := fun n => t0 + rate * n in
+          let cf := crun c objs clk t0 progs sched in
+          let nuser := Z.of_nat (length progs) in
+          let mcalls := filter (fun k : call (summ_obj_machine c objs clk) => c_tid k <? nuser) (hist cf) in
+          if trace_eqb (trace cf) tr && Nat.eqb (length mcalls) (length calls) &&
+             forallb (fun ic : icall => let '(t, i, r, a, b) := ic in
+                        existsb (fun k : call (summ_obj_machine c objs clk) => Z.eqb (c_tid k) t && Z.eqb (c_idx k) i && Z.eqb (c_inv k) a && Z.eqb (c_res k) b
+                                          && ret_ok objs (c_ret k : sret) r) mcalls) calls
+          then code_ok else code_model_mismatch
+      | _ => code_model_mismatch
+      end
+  end.
+
+Definition check (s : sx) : Z :=
+  match s with
+  | SL [SZ 7; o; SZ t0; SZ rate; progs; sched; tr; calls; SZ flags] =>
+      match d_opts o, dL (dL d_uop) progs, dL dZ sched, dL (dP dZ dStr) tr, dL d_icall calls with
+      | Some o, Some progs, Some sched, Some tr, Some calls => check_sched o t0 rate progs sched tr calls flags
+      | _, _, _, _, _ => code_decode_error
+      end
+  | _ => code_decode_error
+  end.
+
+Definition e_sret (r : sret) : sx := match r with RUnit => SL [SZ 0] | ROut w => SL [SZ 1; e_w w] end.
+Definition explain (s : sx) : sx :=
+  match s with
+  | SL [SZ 7; o; SZ t0; SZ rate; progs; sched; _; _; _] =>
+      match d_opts o, dL (dL d_uop) progs, dL dZ sched with
+      | Some o, Some progs, Some sched =>
+          match new_summary o t0 with
+          | NSummary c objs _ =>
+              let clk := fun n => t0 + rate * n in
+              let cf := crun c objs clk t0 progs sched in
+              SL [eL (fun p => SL [SZ (fst p); eStr (snd p)]) (trace cf);
+                  eL (fun k : call (summ_obj_machine c objs clk) => SL [SZ (c_tid k); SZ (c_idx k); e_sret (c_ret k : sret); SZ (c_inv k); SZ (c_res k)]) (hist cf)]
+          | _ => SL []
+          end
+      | _, _, _ => SL []
+      end
+  | _ => SL []
+  end.
+End Sched.
+
+Definition check (s : sx) : Z :=
+  match s with SL (SZ 7 :: _) => Sched.check s | _ => check_seq s end.
+Definition explain (s : sx) : sx :=
+  match s with SL (SZ 7 :: _) => Sched.explain s | _ => explain_seq s end.
